@@ -38,7 +38,78 @@ class Run:
         self.warn_texts = []
 
 
-def record_run(make_solver, system, solver_name, cwu, nsteps, faults=None, solve_kwargs=None):
+class _Observers:
+    """independent observers of the helpers the solvers call: when a helper returns normally and claims convergence, its documented criterion is
+    evaluated once more at the returned point; a miss is recorded as a failed site 'unmet' (SolverRun.tla)"""
+    SLACK = 10.0      # the helpers' own last iterate may miss the criterion at the RETURNED point by a small factor (contraction); a failed loop misses by orders
+
+    def __init__(self):
+        self.saved = []
+
+    def __enter__(self):
+        import importlib
+        import inspect
+        from cardillo import _verif
+
+        def wrap_fsolve(orig):
+            sig = inspect.signature(orig)
+
+            def fsolve(*a, **kw):
+                sol = orig(*a, **kw)
+                try:
+                    if getattr(sol, "success", False) and _verif.recording():
+                        b = sig.bind(*a, **kw); b.apply_defaults()
+                        fun, x0, fa, opt = b.arguments["fun"], b.arguments["x0"], b.arguments.get("fun_args", ()), b.arguments["options"]
+                        fa = fa if isinstance(fa, tuple) else (fa,)
+                        f0 = np.atleast_1d(fun(x0, *fa)); fx = np.atleast_1d(fun(sol.x, *fa))       # the last evaluation is at the returned point, as in fsolve
+                        scale = opt.newton_atol + np.abs(f0) * opt.newton_rtol
+                        err = np.linalg.norm(fx / scale) / scale.size ** 0.5
+                        if not (err < 1.0 + 1e-9):
+                            _verif.emit("site", site="unmet", occ=-1, ok=False, helper="fsolve", error=float(err))
+                except Exception:
+                    pass
+                return sol
+            return fsolve
+
+        def wrap_fp(orig, name):
+            sig = inspect.signature(orig)
+
+            def helper(*a, **kw):
+                out = orig(*a, **kw)
+                try:
+                    if _verif.recording():
+                        b = sig.bind(*a, **kw); b.apply_defaults()
+                        fun, atol, rtol = b.arguments["fun"], b.arguments["atol"], b.arguments["rtol"]
+                        x = np.asarray(out[0], dtype=float)
+                        fx = np.asarray(fun(x), dtype=float)
+                        scale = atol + np.maximum(np.abs(x), np.abs(fx)) * rtol
+                        err = np.linalg.norm((fx - x) / scale) / max(x.size, 1) ** 0.5
+                        if not (err < self.SLACK):
+                            _verif.emit("site", site="unmet", occ=-1, ok=False, helper=name, error=float(err))
+                except Exception:
+                    pass
+                return out
+            return helper
+
+        for modname in ("cardillo.solver.statics", "cardillo.solver.rattle", "cardillo.solver.backward_euler"):
+            m = importlib.import_module(modname)
+            if hasattr(m, "fsolve"):
+                self.saved.append((m, "fsolve", m.fsolve))
+                m.fsolve = wrap_fsolve(m.fsolve)
+        m = importlib.import_module("cardillo.solver.dual_stormer_verlet")
+        for name in ("fixed_point_iteration", "fixed_point_iteration_with_momentum"):
+            if hasattr(m, name):
+                self.saved.append((m, name, getattr(m, name)))
+                setattr(m, name, wrap_fp(getattr(m, name), name))
+        return self
+
+    def __exit__(self, *exc):
+        for m, name, f in self.saved:
+            setattr(m, name, f)
+        return False
+
+
+def record_run(make_solver, system, solver_name, cwu, nsteps, faults=None, solve_kwargs=None, observe=False):
     """make_solver() -> solver object (constructed inside the recording, so that warnings of the
     constructor are part of the trace).  Returns a Run."""
     from cardillo import _verif
@@ -65,7 +136,7 @@ def record_run(make_solver, system, solver_name, cwu, nsteps, faults=None, solve
         warnings.simplefilter("always")
         warnings.showwarning = showwarning
         try:
-            with contextlib.redirect_stdout(io.StringIO()), np.errstate(all="ignore"):
+            with contextlib.redirect_stdout(io.StringIO()), np.errstate(all="ignore"), (_Observers() if observe else contextlib.nullcontext()):
                 solver = make_solver()
                 sol = solver.solve(**(solve_kwargs or {}))
         except BaseException as ex:  # noqa: the outcome is data
